@@ -130,12 +130,18 @@ class Execution(object):
         return p
 
 
-def explore(bodies, bound, check, max_schedules=None, reset=None):
+def explore(bodies, bound, check, max_schedules=None, reset=None, shard=None):
     """Enumerate all schedules of `bodies` with at most `bound` preemptions.
 
     check(execution) is called for every complete execution.  `reset()` (if
     given) is called before every execution to put shared objects back into
-    their initial state.  Returns (schedules, capped)."""
+    their initial state.  `shard=(k, K)` restricts the search to the k-th of K
+    disjoint parts of the schedule tree: the choice of the thread that starts is
+    free (no preemption), so every part visits the executions that differ from
+    the default one only in that choice; the subtrees hanging off those
+    executions are dealt in snake order by the decision index of their first
+    real deviation, and the start-only executions themselves are checked by
+    part 0 (the union over k is exactly the unsharded search).  Returns (schedules, capped)."""
     n = 0
     stack = [([], None)]
     while stack:
@@ -143,8 +149,11 @@ def explore(bodies, bound, check, max_schedules=None, reset=None):
         if reset is not None:
             reset()
         x = Execution(bodies, prefix, expect).go()
-        n += 1
-        check(x)
+        # "root-like": the default execution, or one that only differs in which thread starts (no preemption yet)
+        root = not prefix or (len(prefix) == 1)
+        if not (root and shard is not None and shard[0] != 0):
+            n += 1
+            check(x)
         if max_schedules is not None and n >= max_schedules:
             return n, True
         pre = 0
@@ -155,6 +164,8 @@ def explore(bodies, bound, check, max_schedules=None, reset=None):
                 pre += 1
         for i in range(len(x.choices) - 1, len(prefix) - 1, -1):
             enabled, last = x.enabled_at[i]
+            if root and shard is not None and i > 0 and _part(i, shard[1]) != shard[0]:
+                continue
             for alt in range(len(enabled) - 1, 0, -1):
                 cost = cost_before[i] + (1 if (last is not None and last in enabled) else 0)
                 if bound is not None and cost > bound:
@@ -162,6 +173,13 @@ def explore(bodies, bound, check, max_schedules=None, reset=None):
                 # the alternative shares the trace up to the moment decision i was taken
                 stack.append((x.choices[:i] + [alt], x.trace[:x.trace_len_at[i]]))
     return n, False
+
+
+def _part(i, K):
+    """Deal decision indices to K parts in snake order (0..K-1, K-1..0, ...): subtree sizes shrink
+    roughly linearly with the index of the first deviation, so this balances the parts."""
+    j = i % (2 * K)
+    return j if j < K else 2 * K - 1 - j
 
 
 def run_schedule(bodies, choices, reset=None):
